@@ -11,7 +11,7 @@ checked against this contract, never against the body of cache.load/dump/...), a
 every path of the real body must end in a state equal to one of the contract's cases.
 """
 import z3
-from pyvc.symex import (forall, Val, INT, BOOL, fresh, Hashable, NoneC, Opaque, IntV, BoolV, NONE, StrV,
+from pyvc.symex import (forall, ExcIsInst, EXC_IDS, Val, INT, BOOL, fresh, Hashable, NoneC, Opaque, IntV, BoolV, NONE, StrV,
                         TupleV, Ref, FuncV, BoundV, ClassV, PropertyV, Exc, CallArgs, Unsupported)
 from pyvc import models
 from pyvc.models import DictObj, ArchiveObj, EMPTY_SET, overlay
@@ -97,7 +97,14 @@ def c_load(I, st, ca):
                     # archive[k] / {k: ..} with an unhashable key: some exception (TypeError for
                     # dict-like stores, KeyError for the directory store, ...): class unknown
                     for (s2, iskey) in I.branch(s1, fresh('archive_unhashable_is_keyerror', BOOL)):
-                        nxt.append((s2, NONE) if iskey else (s2, Exc(None, origin='cache.load(unhashable)')))
+                        if iskey:
+                            nxt.append((s2, NONE))
+                        else:
+                            # load() itself swallows KeyError, so what escapes is never a KeyError
+                            e = Exc(None, origin='cache.load(unhashable)')
+                            s2 = s2.fork()
+                            s2.assume(z3.Not(ExcIsInst(e.term, EXC_IDS['KeyError'])))
+                            nxt.append((s2, e))
                     continue
                 for (s2, present) in I.branch(s1, A.dom[kt], 'arch-in', 'arch-notin'):
                     if present:
